@@ -16,7 +16,9 @@ RULE = (
     "letters x orientation sets (whole 408-letter orbit-closed alphabet as one texture; the 24 "
     "cube rotations alone = exact zero invariants; tilings to n_grains 1..1e5) x scale letters "
     "(normalised, 1e-12, 1e6, raw) x parameter settings (<=1 deviation); each case calls "
-    "derivatives for 6 (M*, phi) settings. A case is non-trivial when >=2 grains have distinct "
+    "derivatives for 6 (M*, phi) settings; plus fabric x regime x the 15 whole-number gradients x the "
+    "24 cube rotations x 3 one-grain-holds-all volume vectors with the orientations / volumes / "
+    "gradients / everything typed int64: bit-identical to the float64 call. A case is non-trivial when >=2 grains have distinct "
     "non-zero strain energies and the gradient is not zero; distinct = distinct case key."
 )
 ASSUMPTIONS = [
@@ -47,8 +49,77 @@ def ALPHABETS():
     }
 
 
+WHOLE_VGS = [k for k in ("ss_xz", "ss_xy", "ss_yx", "ss_yz", "ss_zx", "ss_zy", "ps_xy+", "ps_xy-", "ps_xz+", "ps_xz-", "ps_yz+", "ps_yz-", "rigid_xy", "rigid_xz", "rigid_yz")]
+DT_VARIANTS = ["A", "f", "DL", "all"]
+
+
+def _dtype_args(which, A, f, D, L):
+    """The same whole-number arrays, some of them typed int64 (as written with integer literals)."""
+    i = lambda a: np.rint(a).astype(np.int64)  # noqa
+    return (
+        i(A) if which in ("A", "all") else A.copy(),
+        i(f) if which in ("f", "all") else f.copy(),
+        i(D) if which in ("DL", "all") else D.copy(),
+        i(L) if which in ("DL", "all") else L.copy(),
+    )
+
+
+def _call_raw(rg, ph, fb, A, f, D, L):
+    return R.core().derivatives(rg, ph, fb, len(A), A, f, D, L, np.zeros((3, 3)), 1.5, 3.5, 5.0, 125.0, 1.0)
+
+
 def warmup():
     R.warm()
+    # compile the integer-typed signatures once, in the parent
+    A = np.array(list(alph.CUBE.values()))
+    f = np.zeros(len(A))
+    f[-1] = 1.0
+    L = alph.VG["ss_xz"]
+    for which in DT_VARIANTS:
+        for rg in (4, 6):
+            try:
+                _call_raw(rg, 0, 0, *_dtype_args(which, A, f, (L + L.T) / 2, L))
+            except Exception:
+                pass
+
+
+def run_dtype(key):
+    """Whole-number inputs typed int64 are the same inputs: bit-identical rates (seeds C02f, C03f)."""
+    res = empty_result()
+    ph, fb = alph.FABRICS[key["fab"]]
+    rg = alph.DISL[key["reg"]]
+    A = np.array(list(alph.CUBE.values()))
+    n = len(A)
+    L = np.array(alph.VG[key["vg"]], float)
+    D = (L + L.T) / 2  # whole numbers for these letters (shear entries 2, spins +-1)
+    outs = []
+    for hot in (n - 1, 0, 7):
+        f = np.zeros(n)
+        f[hot] = 1.0
+        res["n"] += 1
+        base = _call_raw(rg, ph, fb, A.copy(), f.copy(), D.copy(), L.copy())
+        outs += [np.asarray(base[0]), np.asarray(base[1])]
+        for which in DT_VARIANTS:
+            res["n"] += 1
+            res["trans"] += 1
+            res["clauses"]["dtype_irrelevant"] = res["clauses"].get("dtype_irrelevant", 0) + 1
+            k = dict(key, typed=which, hot=hot)
+            try:
+                got = _call_raw(rg, ph, fb, *_dtype_args(which, A, f, D, L))
+            except Exception as e:
+                res["viol"].append({"clause": "dtype_irrelevant", "key": k, "detail": {"exception": type(e).__name__, "msg": str(e)[:200]}})
+                continue
+            dA = float(np.abs(np.asarray(got[0], float) - base[0]).max())
+            df = float(np.abs(np.asarray(got[1], float) - base[1]).max())
+            if not (dA <= 1e-12 and df <= 1e-12):
+                res["viol"].append({"clause": "dtype_irrelevant", "key": k, "detail": {"max_rate_diff": dA, "max_volume_rate_diff": df}})
+        res["states"] += 1
+    if np.abs(D).max() > 0:
+        res["nontrivial"].append(digest(key))
+    res["outcomes"].append(digest(*[np.round(o, 9) for o in outs]))
+    res["obs"] = digest(*outs)
+    res["sample"] = {"case": key}
+    return res
 
 
 def gen_cases(tier, seed):
@@ -83,6 +154,10 @@ def gen_cases(tier, seed):
         for vg in alph.VG:
             if vg.startswith(("ss_", "ps_", "ax_")):
                 keys.append(dict(fab=fab, reg="disl", vg=vg, scale="1", vol="uniform", set="singles", prm=prms[0]))
+    # whole-number inputs typed with integer literals
+    for fab, reg in itertools.product(alph.FABRICS, alph.DISL):
+        for vg in WHOLE_VGS:
+            keys.append(dict(part="dtype", fab=fab, reg=reg, vg=vg))
     return keys
 
 
@@ -112,6 +187,8 @@ def gradient(key):
 
 
 def run_case(key):
+    if key.get("part") == "dtype":
+        return run_dtype(key)
     if key["set"] == "singles":
         return run_singles(key)
     res = empty_result()
